@@ -16,7 +16,10 @@ use litep2p::{
         TransportEvent, TransportService, UserProtocol,
     },
     substream::Substream,
-    transport::{tcp::config::Config as TcpConfig, ConnectionLimitsConfig},
+    transport::{
+        quic::config::Config as QuicConfig, tcp::config::Config as TcpConfig, websocket::config::Config as WsConfig,
+        ConnectionLimitsConfig,
+    },
     types::protocol::ProtocolName,
     Litep2p, Litep2pEvent, PeerId,
 };
@@ -28,6 +31,8 @@ use std::time::{Duration, Instant};
 use tokio::sync::{mpsc, oneshot};
 
 pub const KAD_PROTO: &str = "/ipfs/kad/1.0.0";
+/// connection open timeout configured for QUIC (handshake and idle timeout of quinn)
+pub const QUIC_OPEN_TIMEOUT: Duration = Duration::from_secs(5);
 
 /// Shared per-network event log.  The push order is a total order consistent with every thread's
 /// program order; nothing else about cross-thread timing is used.
@@ -85,7 +90,8 @@ pub enum Ctl {
 pub struct NodeHandle {
     pub idx: u32,
     pub peer: PeerId,
-    pub addr: Multiaddr,
+    /// every listen address, with the /p2p suffix
+    pub addrs: Vec<Multiaddr>,
     pub ctl: mpsc::UnboundedSender<Ctl>,
     /// fires when the node's thread has dropped its runtime (all sockets closed)
     pub done: Option<oneshot::Receiver<()>>,
@@ -191,12 +197,14 @@ pub struct NodeCfg {
     pub idx: u32,
     pub role: Role,
     pub max_outgoing: Option<usize>,
+    /// "tcp" | "ws" | "quic" | "mix" (all three)
+    pub transport: String,
 }
 
 /// Spawn a node thread; returns once the node listens.
 pub async fn spawn(cfg: NodeCfg, log: Log) -> Result<NodeHandle, String> {
     let (ctl_tx, ctl_rx) = mpsc::unbounded_channel::<Ctl>();
-    let (rdy_tx, rdy_rx) = oneshot::channel::<Result<(PeerId, Multiaddr), String>>();
+    let (rdy_tx, rdy_rx) = oneshot::channel::<Result<(PeerId, Vec<Multiaddr>), String>>();
     let (done_tx, done_rx) = oneshot::channel::<()>();
     let late = Arc::new(Mutex::new(0u64));
     let late2 = late.clone();
@@ -219,7 +227,7 @@ pub async fn spawn(cfg: NodeCfg, log: Log) -> Result<NodeHandle, String> {
         })
         .map_err(|e| format!("thread: {e}"))?;
     match tokio::time::timeout(Duration::from_secs(60), rdy_rx).await {
-        Ok(Ok(Ok((peer, addr)))) => Ok(NodeHandle { idx, peer, addr, ctl: ctl_tx, done: Some(done_rx), late }),
+        Ok(Ok(Ok((peer, addrs)))) => Ok(NodeHandle { idx, peer, addrs, ctl: ctl_tx, done: Some(done_rx), late }),
         Ok(Ok(Err(e))) => Err(e),
         Ok(Err(_)) => Err("node thread ended before it was ready".into()),
         Err(_) => Err("node did not start within 60 s".into()),
@@ -230,14 +238,27 @@ async fn node_main(
     cfg: NodeCfg,
     log: Log,
     mut ctl_rx: mpsc::UnboundedReceiver<Ctl>,
-    rdy: oneshot::Sender<Result<(PeerId, Multiaddr), String>>,
+    rdy: oneshot::Sender<Result<(PeerId, Vec<Multiaddr>), String>>,
     late: Arc<Mutex<u64>>,
 ) {
     let node = cfg.idx;
-    let mut builder = ConfigBuilder::new().with_keypair(Keypair::generate()).with_tcp(TcpConfig {
-        listen_addresses: vec!["/ip4/127.0.0.1/tcp/0".parse().unwrap()],
-        ..Default::default()
-    });
+    let mut builder = ConfigBuilder::new().with_keypair(Keypair::generate());
+    let tr = cfg.transport.as_str();
+    if matches!(tr, "tcp" | "mix") {
+        builder = builder.with_tcp(TcpConfig { listen_addresses: vec!["/ip4/127.0.0.1/tcp/0".parse().unwrap()], ..Default::default() });
+    }
+    if matches!(tr, "ws" | "mix") {
+        builder = builder.with_websocket(WsConfig { listen_addresses: vec!["/ip4/127.0.0.1/tcp/0/ws".parse().unwrap()], ..Default::default() });
+    }
+    if matches!(tr, "quic" | "mix") {
+        // quinn's handshake and idle timeouts are taken from `connection_open_timeout`: QUIC_OPEN_TIMEOUT lets a dead
+        // remote be noticed within the deadlines (which are scaled with it)
+        builder = builder.with_quic(QuicConfig {
+            listen_addresses: vec!["/ip4/127.0.0.1/udp/0/quic-v1".parse().unwrap()],
+            connection_open_timeout: QUIC_OPEN_TIMEOUT,
+            ..Default::default()
+        });
+    }
     let mut kad: Option<KademliaHandle> = None;
     match cfg.role {
         Role::Kad => {
@@ -264,21 +285,15 @@ async fn node_main(
         }
     };
     let peer = *litep2p.local_peer_id();
-    let addr = match litep2p.listen_addresses().next() {
-        Some(a) => {
-            let a = a.clone();
-            if matches!(a.iter().last(), Some(Protocol::P2p(_))) {
-                a
-            } else {
-                a.with(Protocol::P2p(peer.into()))
-            }
-        }
-        None => {
-            let _ = rdy.send(Err("no listen address".into()));
-            return;
-        }
-    };
-    let _ = rdy.send(Ok((peer, addr)));
+    let addrs: Vec<Multiaddr> = litep2p
+        .listen_addresses()
+        .map(|a| if matches!(a.iter().last(), Some(Protocol::P2p(_))) { a.clone() } else { a.clone().with(Protocol::P2p(peer.into())) })
+        .collect();
+    if addrs.is_empty() {
+        let _ = rdy.send(Err("no listen address".into()));
+        return;
+    }
+    let _ = rdy.send(Ok((peer, addrs)));
 
     let mut drop_on: (u8, Option<PeerId>) = (0, None);
     let mut tick = tokio::time::interval(Duration::from_millis(100));
